@@ -63,7 +63,9 @@ const RARE_NAMES: &[&str] =
       // names that sort before `name/...` when they extend a sibling's name
       "a.d", "a+x", "a!", "a b", "a,b", "sub-1", "sub.d",
       // digits and capitals for the character classes
-      "1", "a1", "A", "7b"];
+      "1", "a1", "A", "7b",
+      // characters of 2, 3 and 4 bytes, a combining mark: `?` matches a character, not a byte
+      "é.txt", "café1", "café2", "日本", "日本語", "😀", "😀a", "a😀", "e\u{301}", "e\u{301}x", "ñ", "ß.d", "éé"];
 
 fn pick_name(rng: &mut Rng) -> String {
     if rng.chance(1, 5) { rng.pick(RARE_NAMES).to_string() } else { rng.pick(NAMES).to_string() }
@@ -326,6 +328,34 @@ fn fixed_trees() -> Vec<Tree> {
             ("h\\b", Dir(true)),
             ("h\\b/x", File),
         ]),
+        t(&[
+            ("é.txt", File),
+            ("e.txt", File),
+            ("ee.txt", File),
+            ("café1", File),
+            ("café2", File),
+            ("cafe1", File),
+            ("cafée1", File),
+            ("日本", File),
+            ("日本語", File),
+            ("ab", File),
+            ("abc", File),
+            ("abcdef", File),
+            ("😀", File),
+            ("😀a", File),
+            ("a😀", File),
+            ("abcd", File),
+            ("e\u{301}", File),
+            ("e\u{301}x", File),
+            ("é", File),
+            ("ñ", Dir(true)),
+            ("ñ/日本", File),
+            ("ñ/ab", File),
+            ("ñ/éa", File),
+            ("d", Dir(true)),
+            ("d/é.txt", File),
+            ("d/xy.txt", File),
+        ]),
     ]
 }
 
@@ -578,7 +608,32 @@ fn gen_targeted_field(rng: &mut Rng, tree: &Tree) -> Vec<AttrChar> {
                 v.extend(soft("*"));
                 v.push(ac(*chars.last().unwrap(), Origin::SoftExpansion, rng.chance(1, 2), false));
             }
-            6 => v.extend(soft(*rng.pick(&[".", "..", ".*", "*.", "[.]*", "?*", "*/", "**"]))),
+            6 if rng.chance(1, 2) => v.extend(soft(*rng.pick(&[".", "..", ".*", "*.", "[.]*", "?*", "*/", "**"]))),
+            6 | 7 => {
+                // the name with `?` at some positions and nothing else special:
+                // a component whose length in characters is fixed
+                let qs = rng.below(3);
+                for (j, &c) in chars.iter().enumerate() {
+                    let q = match qs {
+                        0 => rng.chance(1, 2),
+                        1 => j + 1 == chars.len() || !c.is_ascii(),
+                        _ => j == 0 || !c.is_ascii(),
+                    };
+                    if q && !(j == 0 && c == '.') {
+                        v.extend(soft("?"));
+                    } else {
+                        v.push(ac(c, Origin::SoftExpansion, rng.chance(1, 3) || "*[]?\\".contains(c), false));
+                    }
+                }
+                // sometimes one `?` too many or too few
+                match rng.below(8) {
+                    0 => v.extend(soft("?")),
+                    1 => {
+                        v.pop();
+                    }
+                    _ => {}
+                }
+            }
             _ => {
                 // the name itself: quoted, unquoted, or quoted character by character
                 let mode = rng.below(4);
@@ -1437,6 +1492,15 @@ fn main() {
         cx.api("corpus-api", &fixed[0], true, false, &soft(f));
         cx.shell("corpus-shell", &fixed[0], false, &[Unit::Var(f.to_string())]);
         cx.shell("corpus-shell", &fixed[0], false, &plain_units(f));
+    }
+    // `?` matches one character, whatever its length in bytes
+    for f in [
+        "?.txt", "??.txt", "café?", "caf??", "caf???", "c?f??", "??", "???", "?", "????", "??????", "?a", "a?", "e?", "e??", "é?",
+        "?/??", "ñ/??", "?/?a", "?/é?", "d/?.txt", "d/??.txt", "*/?.txt", "日?", "?本", "日本?", "./??", "/??",
+    ] {
+        cx.api("corpus-api", &fixed[11], true, false, &soft(f));
+        cx.shell("corpus-shell", &fixed[11], false, &[Unit::Var(f.to_string())]);
+        cx.shell("corpus-shell", &fixed[11], false, &plain_units(f));
     }
     // the class tables: one-character names spread over ASCII (and one beyond)
     {
